@@ -202,6 +202,8 @@ func vRuneReader(name string, n int) io.Reader {
 			b = append(b, byte(r))
 		case r == 0xFFFD:
 			b = append(b, 0xFF)
+		case r == 0xE9 || r == 0x663:
+			b = append(b, string(rune(r))...)
 		default:
 			panic(vAssumeFail{})
 		}
